@@ -37,10 +37,23 @@ def seeded_table():
 
 
 def twins_table():
-    out = ["| refactoring | anchored in | summary | all 19 checks |", "|---|---|---|---|"]
+    und = {}
+    up = VERIF / "seeded" / "twins" / "UNDECIDED.json"
+    if up.exists():
+        und = json.loads(up.read_text())
+    out = ["| refactoring | anchored in | summary | verdict of the 19 checks |", "|---|---|---|---|"]
+    n_silent = n_und = 0
     for d in sorted((VERIF / "seeded" / "twins").glob("*/meta.json")):
         m = json.loads(d.read_text())
-        out.append(f"| {d.parent.name} | {m.get('property')} | {m.get('summary', '')[:170].replace('|', '/')} | silent (thorough-tier self-test enforces it) |")
+        u = und.get(d.parent.name)
+        if u:
+            n_und += 1
+            verdict = "no violation; undecided (exit 2): " + "; ".join(f"{p} {','.join(r)}" for p, r in sorted(u.items()))
+        else:
+            n_silent += 1
+            verdict = "silent"
+        out.append(f"| {d.parent.name} | {m.get('property')} | {m.get('summary', '')[:150].replace('|', '/')} | {verdict} |")
+    out.append(f"| **total {n_silent + n_und}** | | | **{n_silent} silent on all 19 checks, {n_und} undecided somewhere, 0 reported as violation** |")
     return "\n".join(out)
 
 
